@@ -394,6 +394,7 @@ class Daemon(object):
         request_serializer_id = serializers.MarshalSerializer.serializer_id
         wasBatched = False
         isCallback = False
+        raisedByMethod = None   # the exception (if any) that was raised by the user code of the invoked method itself
         try:
             msg = protocol.recv_stub(conn, [protocol.MSG_INVOKE, protocol.MSG_PING])
         except errors.CommunicationError as x:
@@ -459,7 +460,11 @@ class Daemon(object):
                     # normal single method call
                     if method == "__getattr__":
                         # special case for direct attribute access (only exposed @properties are accessible)
-                        data = _get_exposed_property_value(obj, vargs[0])
+                        try:
+                            data = _get_exposed_property_value(obj, vargs[0])
+                        except errors.CommunicationError as xv:
+                            raisedByMethod = xv
+                            raise
                         if not request_flags & protocol.FLAGS_ONEWAY:
                             isStream, data = self._streamResponse(data, conn)
                             if isStream:
@@ -484,6 +489,7 @@ class Daemon(object):
                             try:
                                 data = method(*vargs, **kwargs)  # this is the actual method call to the Pyro object
                             except Exception as xv:
+                                raisedByMethod = xv
                                 self.methodcall_error_handler(self, current_context.client_sock_addr, method, vargs, kwargs, xv)
                                 raise
                             if not request_flags & protocol.FLAGS_ONEWAY:
@@ -517,14 +523,15 @@ class Daemon(object):
             if msg:
                 request_seq = msg.seq
                 request_serializer_id = msg.serializer_id
-            if not isinstance(xv, errors.ConnectionClosedError):
+            fromMethod = xv is raisedByMethod   # a communication error raised by the method's own code is a result, not a problem of this connection
+            if fromMethod or not isinstance(xv, errors.ConnectionClosedError):
                 if not request_flags & protocol.FLAGS_ONEWAY:
-                    if isinstance(xv, errors.SerializeError) or not isinstance(xv, errors.CommunicationError):
+                    if fromMethod or isinstance(xv, errors.SerializeError) or not isinstance(xv, errors.CommunicationError):
                         # only return the error to the client if it wasn't a oneway call, and not a communication error
                         # (in these cases, it makes no sense to try to report the error back to the client...)
                         tblines = errors.format_traceback(detailed=config.DETAILED_TRACEBACK)
                         self._sendExceptionResponse(conn, request_seq, request_serializer_id, xv, tblines)
-            if isCallback or isinstance(xv, (errors.CommunicationError, errors.SecurityError)):
+            if isCallback or isinstance(xv, errors.SecurityError) or (isinstance(xv, errors.CommunicationError) and not fromMethod):
                 raise  # re-raise if flagged as callback, communication or security error.
 
     def _clientDisconnect(self, conn):
